@@ -19,8 +19,9 @@ import itertools
 from . import _loop
 
 NAME = "yajilin"
-STATUS = "model+differential"
-THEOREMS = []
+STATUS = "theorem"
+THEOREMS = ["Cspuz.C11.Yajilin.program_iff_rules", "Cspuz.C11.Yajilin.total"]
+LEAN_FILE = "C11_Yajilin"
 LEAN_CMD = "puz_yajilin"
 
 _SHAPES = [(1, 1), (1, 2), (2, 1), (1, 3), (3, 1), (1, 4), (4, 1), (2, 2), (2, 3), (3, 2), (2, 4), (4, 2), (3, 3), (3, 3), (3, 4), (4, 3)]
